@@ -2,6 +2,7 @@
   C08 — string literals are source slices, across lines.  Property statements only.
 -/
 import XonshVerif.Proofs.StringTiling
+import XonshVerif.Proofs.TokStructure
 namespace XV.Tz
 open XV XV.Rx
 
@@ -52,5 +53,40 @@ example : ((tokenize ⟨[], []⟩ strPats strSrc).toks.filter (·.ty = .STRING))
     [([39, 39, 39, 97, 10, 98, 39, 39, 39], ⟨1, 1⟩, ⟨2, 4⟩)] := by decide +kernel
 example : (tokenize ⟨[], []⟩ strPats strSrc).err = none := by decide +kernel
 example : srcText (splitLines strSrc []) ⟨1, 1⟩ ⟨2, 4⟩ = [39, 39, 39, 97, 10, 98, 39, 39, 39] := by decide +kernel
+
+
+/-- **tokenize_structure.**  For every pattern set, every character environment and every text on which the tokenizer
+    finishes: reading INDENT as an opening and DEDENT as a closing bracket, the token stream is balanced - no DEDENT
+    without an open INDENT at any point (`depthAfter` is never `none`), all INDENTs closed at the end - and the stream is
+    `body ++ [ENDMARKER]` with no ENDMARKER inside `body`: exactly one ENDMARKER, last.  (No hypothesis on the patterns.) -/
+theorem tokenize_structure (E : Env) (P : Pats) (src : List Nat) (hfin : (tokenize E P src).err = none) :
+    depthAfter 0 (tokenize E P src).toks = some 0 ∧
+    ∃ body e, (tokenize E P src).toks = body ++ [e] ∧ e.ty = .ENDMARKER ∧ ∀ t ∈ body, t.ty ≠ .ENDMARKER := by
+  unfold tokenize at hfin ⊢
+  simp only [] at hfin ⊢
+  cases h : tokenizeLines E P ((splitLines src []).length + 2) (splitLines src []) TState.init [] with
+  | error e => rw [h] at hfin; simp at hfin
+  | ok ts =>
+    simp only []
+    exact tokenizeLines_struct E P _ _ TState.init [] ts (by simp [TState.init]) NoEnd.nil rfl h
+
+/-- every prefix of a finished token stream has at least as many INDENTs as DEDENTs (a corollary, stated for prefixes) -/
+theorem prefix_depth_defined (E : Env) (P : Pats) (src : List Nat) (hfin : (tokenize E P src).err = none)
+    (pre suf : List Tok5) (hsplit : (tokenize E P src).toks = pre ++ suf) : ∃ d, depthAfter 0 pre = some d := by
+  have h := (tokenize_structure E P src hfin).1
+  rw [hsplit, depthAfter_append] at h
+  cases hp : depthAfter 0 pre with
+  | none => rw [hp] at h; simp at h
+  | some d => exact ⟨d, rfl⟩
+
+/-- Non-vacuity (tiny pattern set): `a⏎ b⏎  c⏎d⏎` opens two indentation levels and closes both before `d`. -/
+def indPats : Pats :=
+  { pseudo := [("Name", .plus true (.set false [.word])), ("NL", .chr 10)], endpats := [], startLBrace := [], endRBrace := .eps, tabsize := 8 }
+def indSrc : List Nat := [97, 10, 32, 98, 10, 32, 32, 99, 10, 100, 10]
+
+example : (tokenize ⟨[], []⟩ indPats indSrc).err = none := by decide +kernel
+example : ((tokenize ⟨[], []⟩ indPats indSrc).toks.map (·.ty)) =
+    [.NAME, .NEWLINE, .INDENT, .NAME, .NEWLINE, .INDENT, .NAME, .NEWLINE, .DEDENT, .DEDENT, .NAME, .NEWLINE, .ENDMARKER] := by decide +kernel
+example : depthAfter 0 ((tokenize ⟨[], []⟩ indPats indSrc).toks.take 7) = some 2 := by decide +kernel
 
 end XV.Tz
